@@ -1,6 +1,6 @@
 (* C03: a dumped data package loads back to the same typed data. *)
-From Coq Require Import List ZArith Bool.
-From DF Require Import Base.Str Base.Lits Base.Value IO.Csv IO.Csv_proofs IO.Codec IO.Codec_proofs Gen.Consts.
+From Coq Require Import Permutation List ZArith Bool.
+From DF Require Import Base.Str Base.Lits Base.Value IO.Csv IO.Csv_proofs IO.Codec IO.Codec_proofs Gen.Consts IO.RowCells IO.RowCells_proofs.
 From DF Require IO.EJson IO.JsonText IO.JsonText_proofs.
 Import ListNotations.
 Open Scope Z_scope.
@@ -100,3 +100,25 @@ Example C03_csv_roundtrip_example :
   let recs := [[s "id"; s "note"]; [s "1"; s "a,b"]; [s "2"; s "say ""x"""]; [s "3"; app (s "l1") (10%Z :: s "l2")]; [s ""; s ""]] in
   read_csv (write_csv recs) = Ok recs.
 Proof. vm_compute. reflexivity. Qed.
+
+(* a file dumper lays a row out under the header by field name: the cells do not depend on the order of the row's keys
+   (rows are dicts), and for a row in schema order they are its values; writing the values as they come is refuted *)
+Theorem C03_cells_independent_of_row_key_order : forall headers r r',
+  NoDup (rkeys r) -> Permutation r r' -> row_cells headers r = row_cells headers r'.
+Proof. exact row_cells_perm. Qed.
+Print Assumptions C03_cells_independent_of_row_key_order.
+
+Theorem C03_cells_of_a_row_in_schema_order : forall r, NoDup (rkeys r) -> row_cells (rkeys r) r = row_values r.
+Proof. exact row_cells_in_order. Qed.
+Print Assumptions C03_cells_of_a_row_in_schema_order.
+
+Theorem C03_csv_records_independent_of_key_order : forall headers rows rows',
+  Forall2 (fun r r' => NoDup (rkeys r) /\ Permutation r r') rows rows' ->
+  csv_records headers rows = csv_records headers rows'.
+Proof. exact csv_records_perm. Qed.
+Print Assumptions C03_csv_records_independent_of_key_order.
+
+Theorem C03_positional_writing_refuted : exists headers r r',
+  NoDup (rkeys r) /\ Permutation r r' /\ row_values r = row_cells headers r /\ row_values r' <> row_cells headers r'.
+Proof. exact positional_cells_refuted. Qed.
+Print Assumptions C03_positional_writing_refuted.
